@@ -169,7 +169,7 @@ def run(res, rng, tier, prop='C04'):
         res.corr_bad.append(dict(error=err))
     for i in bad:
         c, o, t = terms[i]
-        res.corr_bad.append(dict(case=c, obs=strip(o), model_agrees_on='[add outcomes; structure; statistics; answers; structure after merge; answers after merge] = ' + why.get(i, '?'),
+        res.corr_bad.append(dict(case=c, obs=strip(o), model_agrees_on='[add outcomes; structure; statistics; answers; structure after merge; answers after merge; public answers; public answers after merge] = ' + why.get(i, '?'),
                                  note='Coq model of Add/Chunks/MergeChunks/write/read disagrees with the implementation'))
     res.extra['traces_validated_against_impl'] = len(terms) - len(bad)
     res.rule = ('a case = one index kind (BAI / CSI with (minShift, depth) in 1..20 x 1..8, v1/v2 / tabix), a coordinate-sorted record list on 1-6 references '
